@@ -509,7 +509,18 @@ pub fn enumerate_faults(r: &mut Rng, b: &Base, tier: Tier, want_all_truncations:
                 }
             }
             SpanKind::FieldId => {
-                for val in [0i64, 1, -1, 32767, -32768] {
+                // boundary ids plus the ids of other fields of this message (a repeated id, a swapped id)
+                let mut vals: Vec<i64> = vec![0, 1, -1, 32767, -32768];
+                if !is_pb {
+                    let others: Vec<&Span> = b.spans.iter().filter(|o| o.kind == SpanKind::FieldId && o.start != sp.start).collect();
+                    for _ in 0..3.min(others.len()) {
+                        let o = *r.pick(&others);
+                        if let Some(id) = read_field_id(b.proto, &b.bytes, o) {
+                            vals.push(id as i64);
+                        }
+                    }
+                }
+                for val in vals {
                     v.push(Faulted {
                         bytes: overwrite_span(b.proto, &b.bytes, &sp, val),
                         desc: format!("field_id@{}={}", sp.start, val),
@@ -519,6 +530,16 @@ pub fn enumerate_faults(r: &mut Rng, b: &Base, tier: Tier, want_all_truncations:
                 }
             }
             SpanKind::Payload | SpanKind::Stop => {}
+        }
+        if sp.kind == SpanKind::FieldHdr && b.proto == Proto::Compact && !is_pb {
+            // the delta nibble of a short-form field header: other ids, a repeated id, the long form (0)
+            for d in [0u8, 1, 2, 7, 15] {
+                let mut x = b.bytes.clone();
+                x[sp.start] = (x[sp.start] & 0x0F) | (d << 4);
+                if x != b.bytes {
+                    v.push(Faulted { bytes: x, desc: format!("delta@{}={}", sp.start, d), kind: "field_id_overwrite", strict_prefix: false });
+                }
+            }
         }
     }
     // span drop / duplication
@@ -540,6 +561,22 @@ pub fn enumerate_faults(r: &mut Rng, b: &Base, tier: Tier, want_all_truncations:
         }
     }
     v
+}
+
+/// The field id stored in a FieldId span (fixed i16 or zigzag varint).
+fn read_field_id(proto: Proto, bytes: &[u8], sp: &Span) -> Option<i16> {
+    let b = bytes.get(sp.start..sp.end)?;
+    match proto {
+        Proto::Binary => Some(i16::from_be_bytes([*b.first()?, *b.get(1)?])),
+        Proto::BinaryLE => Some(i16::from_le_bytes([*b.first()?, *b.get(1)?])),
+        Proto::Compact => {
+            let mut v: u32 = 0;
+            for (i, x) in b.iter().enumerate() {
+                v |= ((*x & 0x7f) as u32) << (7 * i);
+            }
+            Some(((v >> 1) as i32 ^ -((v & 1) as i32)) as i16)
+        }
+    }
 }
 
 /// Replace a protobuf length prefix (varint) by `val` (as u64: negatives become ten-byte varints).
